@@ -288,12 +288,24 @@ def _worker(args):
     name, fast, smt2, timeout_ms, second_opinion, index_consts, hint, blob = args
     secs0 = 0.0
     for label, text in (fast or []):
-        # weaker queries (small facts only / no congruence): only an unsat answer is used
+        # weaker queries (abstraction / small facts only / no congruence): only an unsat answer is used
         try:
             verdict, _, s0, _ = _run_z3_api(text, min(timeout_ms, 4000))
             secs0 += s0
             if verdict == "unsat" and not second_opinion:
                 return name, "unsat", "z3-5.1", {}, secs0, label
+            if verdict == "unsat" and second_opinion:
+                # thorough tier: the other solvers give their opinion on the SAME (weaker) query; unsat of it carries over to the obligation
+                others = []
+                for lab2, cmd in (("cvc5", ["/usr/bin/cvc5", "--tlimit=6000"]), ("z3-4.8", ["/usr/bin/z3", "-T:6"])):
+                    if not os.path.exists(cmd[0]):
+                        continue
+                    v2, s2 = _run_cli(cmd, text if lab2 != "cvc5" else "(set-logic ALL)\n" + text, 6)
+                    others.append((lab2, v2))
+                    secs0 += s2
+                if any(v == "sat" for _, v in others):
+                    return name, "error", "z3-5.1", {}, secs0, f"solver disagreement on the {label} query: unsat vs {others}"
+                return name, "unsat", "z3-5.1", {}, secs0, label + " second-opinion=" + ",".join(f"{l}:{v}" for l, v in others)
         except z3.Z3Exception:
             pass
     if hint:
